@@ -126,6 +126,7 @@ theorem a64_lists_reported_partial : ∀ r ∈ Gen.C12A64.table, rowOk r = true 
     (both sides are compiler dumps: of the committed file and of the file regenerated in a scratch copy) -/
 theorem tables_regenerate : Gen.C12Tables.committed = Gen.C12TablesRegen.regenerated := by rfl
 
+
 /-! ### witnesses of the open findings (the full-strength monitor rejects what the real code answers) -/
 
 /-- C12-F1: `kmovb r8d, k2` — operand 1 (`k2`) is reported RegMem with rm_size 1, the database has no `kmovb r32, m8` -/
